@@ -150,6 +150,42 @@ fn pseudoprime(rng: &mut Rng, iters: u64) {
             fail("pseudoprime", format!("pseudoprime({c}) = true for a composite"));
         }
     }
+    // the minimal strong pseudoprimes to the first 12 and 13 prime bases (79 and 82 bits), and structured composites
+    // above 64 bits: Carmichael numbers (6k+1)(12k+1)(18k+1) and products p(2p-1)
+    {
+        use std::str::FromStr;
+        for s in ["318665857834031151167461", "3317044064679887385961981"] {
+            let c = Uint::from_str(s).unwrap();
+            if yamaquasi::pseudoprime(c) {
+                fail("pseudoprime", format!("pseudoprime({c}) = true for a strong pseudoprime to the first 12 prime bases"));
+            }
+        }
+        let mut found = 0;
+        let mut k = 1u64 << 21;
+        while found < 6 {
+            k += 1 + rng.next() % 64;
+            let (a, b, c) = (6 * k + 1, 12 * k + 1, 18 * k + 1);
+            if is_prime_td_big(a) && is_prime_td_big(b) && is_prime_td_big(c) {
+                found += 1;
+                let n = Uint::from(a) * Uint::from(b) * Uint::from(c);
+                if yamaquasi::pseudoprime(n) {
+                    fail("pseudoprime", format!("pseudoprime({n}) = true for the Carmichael number ({a})({b})({c})"));
+                }
+            }
+        }
+        let mut found = 0;
+        let mut q = (1u64 << 34) + 2 * (rng.next() % 100000) + 1;
+        while found < 6 {
+            q += 2;
+            if is_prime_td_big(q) && is_prime_td_big(2 * q - 1) {
+                found += 1;
+                let n = Uint::from(q) * Uint::from(2 * q - 1);
+                if yamaquasi::pseudoprime(n) {
+                    fail("pseudoprime", format!("pseudoprime({n}) = true for the composite {q} * {}", 2 * q - 1));
+                }
+            }
+        }
+    }
     // multiword even numbers, in particular with a low word equal to 2
     for k in [64u32, 65, 128, 200, 500] {
         for low in [0u64, 2, 4, u64::MAX - 1] {
@@ -559,6 +595,24 @@ fn factorapi(rng: &mut Rng, iters: u64) {
     for n in [271750259454572315341u128, 589222107493, 91033 * 6472621, 65537 * 786433] {
         inputs.push((Uint::from(n), Algo::Pm1));
         inputs.push((Uint::from(n), Algo::Auto));
+    }
+    // every selector on very small inputs (F16: Qs64 on semiprimes below ~36 bits), and two 62-bit semiprimes for
+    // which qsieve64 finds no relation at all (F17: empty matrix)
+    {
+        let ps = [211u64, 223, 1009, 10007, 65537, 1000003, 2147483647];
+        for alg in [Algo::Qs64, Algo::Squfof, Algo::Rho, Algo::Ecm128, Algo::Pm1, Algo::Auto, Algo::Qs, Algo::Mpqs, Algo::Siqs, Algo::Ecm] {
+            for i in 0..ps.len() {
+                for j in i..ps.len() {
+                    let n = ps[i] as u128 * ps[j] as u128;
+                    if n >> 64 != 0 && matches!(alg, Algo::Qs64 | Algo::Squfof | Algo::Rho) { continue; }
+                    if iters < 1000 && (i + j) % 3 != 0 { continue; }
+                    inputs.push((Uint::from(n), alg));
+                }
+            }
+        }
+        for n in [47053u64, 2370147152969376061, 3348930949652004427] {
+            inputs.push((Uint::from(n), Algo::Qs64));
+        }
     }
     for _ in 0..iters.min(3000) {
         // random products of 1..4 primes from the table, with repetitions
